@@ -357,6 +357,8 @@ fn parsed_text(c: &Cond) -> Option<String> {
 enum Step {
     /// values per column; `None` = key omitted from the insert map
     Insert(Vec<Option<Value>>),
+    /// like `Insert`, and the value map also carries a key that is no column of the table (ignored by the engine)
+    InsertExtra(Vec<Option<Value>>),
     /// `batch_insert`: all rows are validated before the first one is stored
     BatchInsert(Vec<Vec<Option<Value>>>),
     Update(Cond, Vec<(ColSel, Value)>),
@@ -380,6 +382,7 @@ fn step_text(s: &Step) -> String {
     let ov = |v: &Option<Value>| v.as_ref().map_or("omit".to_string(), tok);
     match s {
         Step::Insert(vs) => format!("ins {}", vs.iter().map(ov).collect::<Vec<_>>().join(" ")),
+        Step::InsertExtra(vs) => format!("ins+unknown_key {}", vs.iter().map(ov).collect::<Vec<_>>().join(" ")),
         Step::BatchInsert(rows) => format!(
             "batch_insert {}",
             rows.iter().map(|vs| format!("({})", vs.iter().map(ov).collect::<Vec<_>>().join(" "))).collect::<Vec<_>>().join(" ")
@@ -591,7 +594,11 @@ fn gen_case(r: &mut Rng, idx: usize, n_ops: usize, n_queries: usize) -> Case {
                         }
                     }
                 }
-                s
+                if g.r.chance(1, 12) {
+                    if let Step::Insert(vs) = s { Step::InsertExtra(vs) } else { s }
+                } else {
+                    s
+                }
             },
             45..=59 => {
                 let s = g.update(&schema);
@@ -796,6 +803,13 @@ fn directed_cases(thorough: bool) -> Vec<Case> {
                 Step::CreateBtree(ColSel::Col(0)),
                 Step::Query(leaf(Cmp::Ge, 0, i(0)), 2, 0, 2),
                 Step::Query(leaf(Cmp::Ge, 0, i(0)), 2, 2, 1),
+                // extreme paging parameters: `offset.saturating_add(limit)`, one page holds everything
+                Step::Query(leaf(Cmp::Ge, 0, i(2)), usize::MAX, 1, usize::MAX),
+                Step::Query(leaf(Cmp::Ne, 0, i(8)), usize::MAX, usize::MAX, 3),
+                Step::Query(leaf(Cmp::Ne, 0, i(8)), 1, usize::MAX, 2),
+                Step::DropBtree(ColSel::Col(0)),
+                Step::Query(leaf(Cmp::Ge, 0, i(2)), usize::MAX, 1, usize::MAX),
+                Step::Query(leaf(Cmp::Ne, 0, i(8)), usize::MAX - 1, 2, 1),
             ],
         },
         Case {
@@ -1224,10 +1238,14 @@ fn run_case(case: &Case, rep: &mut Report, m: &mut Model, text_budget: &mut u64)
     for (si, step) in case.steps.iter().enumerate() {
         let input = || case_json(case, si);
         match step {
-            Step::Insert(vs) => {
+            Step::Insert(vs) | Step::InsertExtra(vs) => {
                 rep.hit("op.insert");
-                let map: HashMap<String, Value> =
+                let mut map: HashMap<String, Value> =
                     vs.iter().enumerate().filter_map(|(i, v)| v.clone().map(|v| (format!("c{i}"), v))).collect();
+                if matches!(step, Step::InsertExtra(_)) {
+                    rep.hit("op.insert.unknown_extra_key");
+                    map.insert("zz".to_string(), Value::Int(1));
+                }
                 if vs.iter().any(Option::is_none) {
                     rep.hit("op.insert.omitted_column");
                 }
@@ -1321,7 +1339,33 @@ fn run_case(case: &Case, rep: &mut Report, m: &mut Model, text_budget: &mut u64)
                 let r0 = e0.update("t", ec.clone(), map.clone());
                 // the all-index engine takes the statement as text when it can be rendered faithfully
                 let mut ra: Option<Result<usize, String>> = None;
-                if *text_budget > 0 {
+                if *text_budget > 0 && si % 2 == 1 {
+                    // AST path: `UPDATE t SET c = v, ... WHERE <tree>`
+                    if let (Some(w), Some(setv)) = (
+                        parsed_text(c),
+                        sets.iter().map(|(c, v)| if *c == ColSel::Unknown { None } else { parsed_value(v).map(|s| format!("{} = {}", col_name(c), s)) }).collect::<Option<Vec<_>>>(),
+                    ) {
+                        if !setv.is_empty() {
+                            *text_budget = text_budget.saturating_sub(1);
+                            let stmt = format!("UPDATE t SET {} WHERE {}", setv.join(", "), w);
+                            match router.execute_parsed(&stmt) {
+                                Ok(query_router::QueryResult::Count(n)) => {
+                                    rep.hit("text.update_parsed");
+                                    ra = Some(Ok(n));
+                                },
+                                Ok(_) => ra = Some(Err("other".into())),
+                                Err(query_router::RouterError::RelationalError(msg)) => {
+                                    rep.hit("text.update_parsed");
+                                    ra = Some(Err(msg));
+                                },
+                                Err(_) => {
+                                    rep.hit("text.update_parsed_unsupported");
+                                },
+                            }
+                        }
+                    }
+                }
+                if *text_budget > 0 && ra.is_none() {
                     if let (Some(w), Some(setv)) = (
                         legacy_text(c),
                         sets.iter().map(|(c, v)| legacy_value(v).filter(|s| !s.contains(',') && !s.contains('=')).map(|s| format!("{}={}", col_name(c), s))).collect::<Option<Vec<_>>>(),
@@ -1411,7 +1455,20 @@ fn run_case(case: &Case, rep: &mut Report, m: &mut Model, text_budget: &mut u64)
                 let ec = to_engine(c);
                 let r0 = e0.delete_rows("t", ec.clone());
                 let mut ra: Option<usize> = None;
-                if *text_budget > 0 {
+                if *text_budget > 0 && si % 2 == 1 {
+                    // AST path: `DELETE FROM t WHERE <tree>`
+                    if let Some(w) = parsed_text(c) {
+                        *text_budget = text_budget.saturating_sub(1);
+                        match router.execute_parsed(&format!("DELETE FROM t WHERE {w}")) {
+                            Ok(query_router::QueryResult::Count(n)) => {
+                                rep.hit("text.delete_parsed");
+                                ra = Some(n);
+                            },
+                            _ => rep.hit("text.delete_parsed_unsupported"),
+                        }
+                    }
+                }
+                if *text_budget > 0 && ra.is_none() {
                     if let Some(w) = legacy_text(c) {
                         *text_budget = text_budget.saturating_sub(1);
                         match router.execute(&format!("DELETE t WHERE {w}")) {
@@ -1517,8 +1574,8 @@ fn run_case(case: &Case, rep: &mut Report, m: &mut Model, text_budget: &mut u64)
 
                 let page = |ids: &[u64], l: usize, o: usize| -> Vec<u64> { ids.iter().skip(o).take(l).copied().collect() };
                 // derived parameters (kept out of `Step::Query` so that old replays stay valid)
-                let max_rows = (*limit * 2 + *offset) % 7;
-                let acol = match (*limit + 2 * *offset + *batch) % (case.schema.len() + 2) {
+                let max_rows = limit.wrapping_mul(2).wrapping_add(*offset) % 7;
+                let acol = match limit.wrapping_add(offset.wrapping_mul(2)).wrapping_add(*batch) % (case.schema.len() + 2) {
                     k if k < case.schema.len() => ColSel::Col(k),
                     k if k == case.schema.len() => ColSel::Id,
                     _ => ColSel::Unknown,
@@ -1642,6 +1699,18 @@ fn run_case(case: &Case, rep: &mut Report, m: &mut Model, text_budget: &mut u64)
                                 }
                             }
                         }
+                    }
+                    // the word-level model of the vectorised path (two extreme choices of the unspecified storage)
+                    if is_model_engine {
+                        let col_got = e.select_columnar("t", ec.clone(), ColumnarScanOptions { projection: None, prefer_columnar: true }).map(|r| row_ids(&r));
+                        let ma = m.ask(&format!("q columnarw {cm}"));
+                        rep.case("model.columnar_words", None);
+                        let imp = match &col_got {
+                            Ok(ids) if *ids == want => format!("{} ; {}", show_ids(ids), show_ids(ids)),
+                            // the implementation already broke the property here: the model must still equal the oracle
+                            _ => format!("{} ; {}", show_ids(&want), show_ids(&want)),
+                        };
+                        rep.compare("model.columnar_words", || json!({"case": input(), "cond": cm}), &imp, &ma);
                     }
                     // aggregates over the same condition: count_column has its own three paths, the others fold
                     // over `select`
@@ -2050,6 +2119,60 @@ fn image_or_empty(e: &RelationalEngine) -> Img {
     image(e)
 }
 
+/// column / table names that are prefixes of one another (`a`/`ab`, `t`/`tab`): the store keys of the indexes
+/// (`_idx:<table>:<column>:<hash>`, `_btree:<table>:<column>:<key>`) must not run into each other when an
+/// index is dropped or rebuilt.  Oracle: the same query on a twin engine that never has an index.
+fn prefix_names_probe(rep: &mut Report) {
+    let mk = || {
+        let e = RelationalEngine::new();
+        for t in ["t", "tab"] {
+            e.create_table(t, Schema::new(vec![Column::new("a", ColumnType::Int), Column::new("ab", ColumnType::Int), Column::new("abc", ColumnType::Int).nullable()])).expect("create_table");
+            for k in 0..7_i64 {
+                let _ = e.insert(t, HashMap::from([("a".to_string(), Value::Int(k % 3)), ("ab".to_string(), Value::Int(k % 2)), ("abc".to_string(), if k == 4 { Value::Null } else { Value::Int(k) })]));
+            }
+        }
+        e
+    };
+    let (plain, idx) = (mk(), mk());
+    let mut script: Vec<String> = Vec::new();
+    let check = |script: &Vec<String>, rep: &mut Report| {
+        for t in ["t", "tab"] {
+            for col in ["a", "ab", "abc"] {
+                for c in [Condition::Eq(col.into(), Value::Int(1)), Condition::Ge(col.into(), Value::Int(1)), Condition::Lt(col.into(), Value::Int(1)), Condition::Eq(col.into(), Value::Null)] {
+                    let want = plain.select(t, c.clone()).map(|r| row_ids(&r)).unwrap_or_default();
+                    let got = idx.select(t, c.clone()).map(|r| row_ids(&r));
+                    let cnt = idx.count(t, c.clone()).ok();
+                    rep.case("prefix_names", None);
+                    if got.as_ref().ok() != Some(&want) || cnt != Some(want.len() as u64) {
+                        viol(rep, "relational_engine.index_keys/prefix_named_index_interferes", &format!("table {t}, {c:?}: indexed engine answered {got:?} (count {cnt:?}), the engine without indexes {}", show_ids(&want)), json!({"script": script}));
+                    }
+                }
+            }
+        }
+    };
+    let steps: Vec<(&str, &str, &str)> = vec![
+        ("create_index", "t", "a"), ("create_index", "t", "ab"), ("create_btree_index", "t", "ab"), ("create_btree_index", "t", "abc"),
+        ("create_index", "tab", "ab"), ("create_btree_index", "tab", "a"),
+        ("drop_index", "t", "a"), ("drop_btree_index", "t", "ab"), ("create_index", "t", "abc"), ("drop_index", "t", "ab"),
+        ("create_btree_index", "t", "a"), ("drop_btree_index", "tab", "a"), ("drop_index", "tab", "ab"),
+    ];
+    for (k, (op, t, col)) in steps.iter().enumerate() {
+        let r = match *op {
+            "create_index" => idx.create_index(t, col),
+            "create_btree_index" => idx.create_btree_index(t, col),
+            "drop_index" => idx.drop_index(t, col),
+            _ => idx.drop_btree_index(t, col),
+        };
+        script.push(format!("{op} {t}.{col} -> {}", if r.is_ok() { "ok" } else { "err" }));
+        // a write between the index operations keeps the incremental maintenance in play
+        for e in [&plain, &idx] {
+            let _ = e.update(t, Condition::Eq("abc".into(), Value::Int(k as i64 % 7)), HashMap::from([("ab".to_string(), Value::Int(1)), ("a".to_string(), Value::Int(1))]));
+        }
+        script.push(format!("update {t} set a=1, ab=1 where abc={}", k % 7));
+        check(&script, rep);
+    }
+}
+
 /// One store, two engine objects (what `QueryRouter::with_shared_store` + a second `with_store` gives).
 /// Outside the op-sequence quantifier of the property; reported as an observation, not a violation.
 fn reopen_probe(rep: &mut Report) {
@@ -2098,6 +2221,7 @@ fn main() {
     }
     depth_rows(&mut rep, &mut m, &mut root.fork("depth_rows"), if args.thorough { 20_000 } else { 2_500 });
     depth_engine(&mut rep, &mut m, &mut root.fork("depth_engine"), if args.thorough { 2_000 } else { 120 });
+    prefix_names_probe(&mut rep);
     reopen_probe(&mut rep);
     rep.expected_branches = ["br.select.hash", "br.select.btree", "br.select.scan", "br.columnar.vec", "br.columnar.scan", "br.columnar.hash", "br.columnar.btree"]
         .iter()
